@@ -17,12 +17,14 @@ import (
 // Step of a middleware program. Objects are numbered: 0 and 1 are the two
 // routers themselves, later ones are Prefix / Resource objects in creation order.
 type Step struct {
-	Kind    string   `json:"kind"` // use mkprefix mkresource handle remove guse gadd gnew
+	Kind    string   `json:"kind"` // use mkprefix mkresource handle remove clean guse gadd gnew g2use g2add
 	Router  int      `json:"router,omitempty"`
 	Obj     int      `json:"obj,omitempty"`
 	Text    string   `json:"text,omitempty"`
 	MWs     []int    `json:"mws,omitempty"`
 	Methods []string `json:"methods,omitempty"`
+	// Drain (remove): name every method the pattern has at that moment (the node stays when routes hang below it)
+	Drain bool `json:"drain,omitempty"`
 }
 
 type Case struct {
@@ -43,9 +45,26 @@ func gen(t *rapid.T) Case {
 	mws := func(max int) []int {
 		return rapid.SliceOfN(rapid.IntRange(0, 3), 0, max).Draw(t, "mws")
 	}
+	if rapid.IntRange(0, 7).Draw(t, "interiorTemplate") == 0 {
+		// the life of an interior node: a pattern and a longer one below it, the first emptied method by method (its
+		// node stays), registered again, and only then a Use - whatever follows is drawn as usual
+		p := rapid.SampledFrom([]string{"/a", "/b", "/c/"}).Draw(t, "tplP")
+		ms := rapid.SampledFrom(methodSets).Draw(t, "tplMethods")
+		c.Steps = append(c.Steps,
+			Step{Kind: "handle", Obj: 0, Text: p, Methods: ms, MWs: mws(1)},
+			Step{Kind: "handle", Obj: 0, Text: p + rapid.SampledFrom([]string{"/1", "/{id}", "1"}).Draw(t, "tplExt"), Methods: []string{"GET"}},
+			Step{Kind: "remove", Obj: 0, Text: p, Methods: []string{"GET"}, Drain: true},
+			Step{Kind: "handle", Obj: 0, Text: p, Methods: rapid.SampledFrom(methodSets).Draw(t, "tplMethods2"), MWs: mws(1)},
+			Step{Kind: "use", Router: 0, MWs: []int{rapid.IntRange(0, 7).Draw(t, "tplUse")}})
+	}
 	for i, n := 0, rapid.IntRange(1, rig.Up(20)).Draw(t, "nsteps"); i < n; i++ {
 		var s Step
-		switch k := rapid.IntRange(0, 19).Draw(t, "kind"); {
+		switch k := rapid.IntRange(0, 21).Draw(t, "kind"); {
+		case k == 20:
+			// a second group: router 0 may be added to it as well, and it has a Use list of its own
+			s = Step{Kind: "g2use", MWs: rapid.SliceOfN(rapid.IntRange(0, 7), 1, 2).Draw(t, "g2mws")}
+		case k == 21:
+			s = Step{Kind: "g2add"}
 		case k < 4:
 			s = Step{Kind: "use", Router: rapid.IntRange(0, 1).Draw(t, "router"), MWs: rapid.SliceOfN(rapid.IntRange(0, 7), 1, 2).Draw(t, "usemws")}
 		case k < 7:
@@ -70,6 +89,7 @@ func gen(t *rapid.T) Case {
 			s = Step{Kind: "remove", Obj: rapid.IntRange(0, nobj-1).Draw(t, "via"), Text: rapid.SampledFrom(suffixes).Draw(t, "suffix")}
 			if rapid.Bool().Draw(t, "rmMethods") {
 				s.Methods = rapid.SampledFrom(methodSets[:4]).Draw(t, "rmm")
+				s.Drain = rapid.Bool().Draw(t, "rmDrain")
 			}
 		case k < 18 && rapid.IntRange(0, 2).Draw(t, "cleanInstead") == 0:
 			s = Step{Kind: "clean", Router: rapid.IntRange(0, 1).Draw(t, "cleanRouter")}
@@ -165,7 +185,9 @@ func check(c Case, st *rig.Stats) error {
 		return ms, ns
 	}
 	grp := env.NewGroup()
-	var guse []string
+	grp2 := env.NewGroup()
+	var guse, g2use []string
+	inGroup2 := false
 	routers := []*routerM{{name: "r0", r: env.NewRouter("r0", rig.Opts{Trace: c.Trace}), routes: map[string]*routeM{}}, nil}
 	inGroup := []bool{false, false}
 	objs := []*objM{{router: 0, kind: "router"}, {router: 1, kind: "router"}}
@@ -207,6 +229,26 @@ func check(c Case, st *rig.Stats) error {
 			if regSeen {
 				useAfterReg = true
 			}
+		case "g2use":
+			ms, ns := mk(s.MWs)
+			grp2.Use(ms...)
+			g2use = append(g2use, ns...)
+			if inGroup2 {
+				routers[0].use = append(routers[0].use, ns...)
+			}
+			useSeen = true
+			if regSeen {
+				useAfterReg = true
+			}
+		case "g2add":
+			if inGroup2 {
+				break
+			}
+			// what the second group has Use'd so far wraps the router now, on top of everything it already carries
+			grp2.Add(mux.NewPathVersion("", "v0"), routers[0].r.Router)
+			routers[0].use = append(routers[0].use, g2use...)
+			inGroup2 = true
+			classes = append(classes, "router-added-to-a-second-group")
 		case "gadd":
 			if inGroup[0] {
 				// already a member: the second Add must be refused without wrapping anything again
@@ -316,6 +358,18 @@ func check(c Case, st *rig.Stats) error {
 				break
 			}
 			pattern := o.pattern + s.Text
+			if o.kind == "resource" {
+				pattern = o.pattern
+			}
+			if rt := rm.routes[pattern]; s.Drain && rt != nil {
+				s.Methods = nil
+				for _, m := range []string{"GET", "POST", "DELETE", "PUT", "PATCH", "CONNECT"} {
+					if _, ok := rt.methods[m]; ok {
+						s.Methods = append(s.Methods, m)
+					}
+				}
+				classes = append(classes, "pattern-drained-method-by-method")
+			}
 			switch o.kind {
 			case "router":
 				rm.r.Remove(pattern, s.Methods...)
@@ -449,7 +503,7 @@ func check(c Case, st *rig.Stats) error {
 }
 
 var stats = rig.NewStats("C09",
-	"rapid draws a program of 1-20 steps over two routers (one standalone and optionally added to a group, one made by Group.New), with and without WithTrace: Use, Group.Use, creation of Prefix / nested Prefix / Resource / Prefix.Resource objects with 0-2 middlewares, Handle through any object with 0-2 per-route middlewares, Remove. Each middleware factory records (name, method, pattern, router, wrapped handler id) at wrap time. After every step every live handler kind (each method, HEAD, OPTIONS, 405 of every live pattern; 404, OPTIONS *, TRACE, group not-found) is invoked and the middlewares that ran, outermost first, must equal the list computed from the statement (Use most recent first, then prefix calls outermost first with later arguments outermost, then the registration's); each wrapper must have exactly one factory record with the right method / pattern / router, and no (middleware, wrapped handler, method) triple may occur twice in the whole log. Non-trivial: a Use after a registration and a registration after a Use both occurred, or prefix nesting depth >= 2; distinct by hash of the case")
+	"(later additions: Router.Clean; removals that name every method a pattern has; one program in eight opens with the life of an interior node - pattern, longer pattern below it, first emptied by name, registered again, then Use; a second group with its own Use list to which router 0 can be added as well) rapid draws a program of 1-20 steps over two routers (one standalone and optionally added to a group, one made by Group.New), with and without WithTrace: Use, Group.Use, creation of Prefix / nested Prefix / Resource / Prefix.Resource objects with 0-2 middlewares, Handle through any object with 0-2 per-route middlewares, Remove. Each middleware factory records (name, method, pattern, router, wrapped handler id) at wrap time. After every step every live handler kind (each method, HEAD, OPTIONS, 405 of every live pattern; 404, OPTIONS *, TRACE, group not-found) is invoked and the middlewares that ran, outermost first, must equal the list computed from the statement (Use most recent first, then prefix calls outermost first with later arguments outermost, then the registration's); each wrapper must have exactly one factory record with the right method / pattern / router, and no (middleware, wrapped handler, method) triple may occur twice in the whole log. Non-trivial: a Use after a registration and a registration after a Use both occurred, or prefix nesting depth >= 2; distinct by hash of the case")
 
 func TestProp(t *testing.T) { rig.RunProp(t, stats, gen, check) }
 
